@@ -564,28 +564,42 @@ def launched_server_search_path(run):
     import supp.remote as R
 
     def go(path):
-        env = R.Environment()
         here = os.path.dirname(os.path.abspath(R.__file__))
         devnull = os.open(os.devnull, os.O_WRONLY)
         saved = os.dup(2)
+        roots = names = None
+        failure = None
         try:
             os.dup2(devnull, 2)
-            try:
-                roots = env.eval('import sys, os\nreturn [os.path.abspath(p) for p in sys.path]')
-                env.configure({'sources': ['/nonexistent']})
-                match, names = env.assist('import umsg', (1, 11), '/nonexistent/edited.py')
-            finally:
-                env.close()
-                proc = getattr(env, 'proc', None)
-                if proc is not None:
+            for attempt in range(3):          # (a launch may time out on a machine that is busy: tried again before it counts)
+                env = R.Environment()
+                try:
+                    roots = env.eval('import sys, os\nreturn [os.path.abspath(p) for p in sys.path]')
+                    env.configure({'sources': ['/nonexistent']})
+                    match, names = env.assist('import umsg', (1, 11), '/nonexistent/edited.py')
+                    failure = None
+                except Exception as e:
+                    failure = '%s: %s' % (type(e).__name__, e)
+                finally:
                     try:
-                        proc.wait(10)
+                        env.close()
                     except Exception:
-                        proc.kill()
+                        pass
+                    proc = getattr(env, 'proc', None)
+                    if proc is not None:
+                        try:
+                            proc.wait(10)
+                        except Exception:
+                            proc.kill()
+                if failure is None:
+                    break
         finally:
             os.dup2(saved, 2)
             os.close(saved)
             os.close(devnull)
+        prove('the-launched-server-answers', failure is None, clause='three requests to a server launched by Environment are answered [%s]' % (failure,), path=path)
+        if failure is not None:
+            return
         script = ('import sys, os; sys.path.insert(0, %r)\nfrom supp.remote import Environment\nenv = Environment()\n'
                   'try:\n    roots = env.eval("import sys, os\\nreturn [os.path.abspath(p) for p in sys.path]")\n    env.configure({"sources": ["/nonexistent"]})\n'
                   '    names = env.assist("import umsg", (1, 11), "/nonexistent/edited.py")[1]\nfinally:\n    env.close()\n'
